@@ -105,6 +105,12 @@ add('C12', 'model_checking',
     "path-exhaustive symbolic execution of the real recipe export/import code on symbolic config fields (z3 LIA/Bool), concrete replay with the json module",
     'DESIGN.md 3/C12')
 
+add('C13', 'model_checking',
+    "For every operator selector (all 25) x algorithm, a config with SYMBOLIC scalar fields (num_bits and block_size unbounded integers, symmetric / explicit_dequantize booleans, enum fields and presence of the activation/weight config forked, skip_checks off) goes through the real update and resolve code with the REAL support checks and default policy: z3 decides on every path that a specific-op update either accepts or raises ValueError (nothing else), that the '*' update never raises and is applied at resolution time iff the specific update accepts (else default no-quantize), and that every accepted config lies inside the finite lattice (no 5-bit width, stray block size, negative width is ever accepted). Every accepted pair of that lattice (found by exhaustive enumeration with the real check) is then pushed through the whole real pipeline on its op's skeleton with symbolic statistics: no exception, C01 well-formedness and C03 mode oracles hold.",
+    "Assumes: runtime soundness (interpreter prepares, outputs track the float model) is FFI (C06/C07 not applicable); skeleton per op kind (quick: first variant, thorough: all variants); float-casting ignores symmetric/granularity/block_size/explicit_dequantize of the weight config (projected away, an unusual variant is materialised); README table is reported as documentation drift only.",
+    "path-exhaustive symbolic execution of the real acceptance code on symbolic config fields (z3 LIA/Bool) + pipeline exploration (UF) for every accepted pair; concrete replay",
+    'DESIGN.md 3/C13')
+
 def write():
   m = {
    'version': 1,
